@@ -462,7 +462,7 @@ class _ProfileFilePersistence(_FilePersistence):
 
         run_id = data_point.run_id
         if filtered_data_file and runs and run_id in runs:
-            return data_point
+            return data_point, run_id
 
         # these are all the measurements that are not filtered out
         if filtered_data_file:
